@@ -532,6 +532,12 @@ def run_impl(case):
         return kw
     u = P17._call(lambda: req.route_url(case['target'], *els, **args()))
     p = P17._call(lambda: req.route_path(case['target'], *els, **args()))
+    # the module-level API (pyramid.url.route_url / route_path) must give the same answers; if it does not, its
+    # answers are the ones that get compared and judged
+    u2 = P17._call(lambda: _impl['mods'][0].route_url(case['target'], req, *els, **args()))
+    p2 = P17._call(lambda: _impl['mods'][0].route_path(case['target'], req, *els, **args()))
+    if (u2, p2) != (u, p):
+        u, p = u2, p2
     back = _route_back(case, cfg, app, u[1]) if u[0] == 0 else []
     return [u, p, back]
 
